@@ -258,8 +258,8 @@ def c18_generate_ordinals_count_placeholders(ctx, v):
                     if r == z3.sat:
                         v.sat += 1
                         ev = lambda x: m.eval(x, model_completion=True).as_long()
-                        v.fail("block of %d: transaction %d is generated with an ordinal that is not its position in the full block (placeholders before it stand for several transactions)" % (n, i),
-                               dict(ordinal_given=ev(abv), position_in_full_block=ev(expected), types=[ev(t.discr.bv) for t in types], txs_replacements=[ev(x.bv) for x in reps]))
+                        L.fail_structural(v, o, "block of %d: transaction %d is generated with an ordinal that is not its position in the full block (placeholders before it stand for several transactions)" % (n, i),
+                               dict(ordinal_given=ev(abv), position_in_full_block=ev(expected), types=[ev(t.discr.bv) for t in types], txs_replacements=[ev(x.bv) for x in reps]), exprs=[abv])
                     elif r == z3.unsat:
                         v.unsat += 1
                     else:
